@@ -363,6 +363,7 @@ class Sim:
         self._next_wake = float("inf")
         self.lazy_kinds: set[str] = set()  # thread kinds that run "arbitrarily late"
         self.frozen = False
+        self.lazy_prefixes: tuple[str, ...] = ()  # thread-name prefixes that run "arbitrarily late" (a stalled worker)
 
     # ------------------------------------------------------------------ actors
     def actor(self, name: str) -> Actor:
@@ -591,10 +592,10 @@ class Sim:
             return default
         runnable = everyone
         p = self.policy
-        if self.lazy_kinds and p != "scripted":
-            eager = [t for t in everyone if t.kind not in self.lazy_kinds]
+        if (self.lazy_kinds or self.lazy_prefixes) and p != "scripted":
+            eager = [t for t in everyone if t.kind not in self.lazy_kinds and not (self.lazy_prefixes and t.name.startswith(self.lazy_prefixes))]
             if eager and len(eager) < len(everyone) and self.rng_sched.random() < 0.97:
-                if cur.state == RUNNABLE and cur.kind in self.lazy_kinds:
+                if cur.state == RUNNABLE and cur not in eager:
                     eager = eager + [cur]
                 runnable = eager
         pref = cur if (cur.state == RUNNABLE and cur in runnable) else runnable[0]
